@@ -318,7 +318,9 @@ func (c *Ctx) ruleLockset(rule string, targets map[*types.Named]string) {
 		sort.Strings(guarded)
 		tname := target.Obj().Pkg().Name() + "." + target.Obj().Name()
 		c.R.Note("%s: %s.%s guards {%s}", rule, tname, mutex, strings.Join(guarded, ", "))
-		if len(guarded) == 0 {
+		if len(guarded) == 0 && c.heldAcrossStreamOp(target, mutex) {
+			c.R.Ok(rule, key(rule, tname+"."+mutex, "serialises the connection"), "-", "mutex without guarded fields", "a read from / write to the connection's CBOR stream is executed with it held: it serialises the use of the stream, not a field")
+		} else if len(guarded) == 0 {
 			c.R.Bad(rule, key(rule, tname+"."+mutex, "guards nothing"), "-", "mutex "+tname+"."+mutex+" guards no field",
 				"no mutable field of the struct is accessed while this mutex is held: the accesses it used to serialise are unprotected")
 		}
@@ -456,6 +458,33 @@ func (c *Ctx) locksMutexOf(fn *ssa.Function, target *types.Named, mutex string) 
 				}
 				if fa, ok := call.Call.Args[0].(*ssa.FieldAddr); ok {
 					if sn := structOf(fa.X.Type()); sn != nil && sn.Obj() == target.Obj() && fieldName(fa.X.Type(), fa.Field) == mutex {
+						return true
+					}
+				}
+			}
+		}
+	}
+	return false
+}
+
+// heldAcrossStreamOp: some Decode / Encode on a CBOR stream in the methods of target is executed with mutex held.
+func (c *Ctx) heldAcrossStreamOp(target *types.Named, mutex string) bool {
+	for _, fn := range c.M.Funcs {
+		if !c.methodOrClosureOf(fn, target) {
+			continue
+		}
+		for _, b := range fn.Blocks {
+			for _, in := range b.Instrs {
+				call, ok := in.(*ssa.Call)
+				if !ok {
+					continue
+				}
+				n := core.StaticCalleeName(&call.Call)
+				if !strings.HasSuffix(n, "cbor/v2.Decoder).Decode") && !strings.HasSuffix(n, "cbor/v2.Encoder).Encode") {
+					continue
+				}
+				for _, l := range c.lockedAt(fn, call) {
+					if strings.HasSuffix(l, "."+mutex) {
 						return true
 					}
 				}
